@@ -5,7 +5,6 @@ from fractions import Fraction as Fr
 import gen
 import impl
 import oracles
-from modelclient import fbits
 
 P1, P2, PR = gen.P1, gen.P2, gen.PR
 
@@ -89,22 +88,7 @@ def check_case(ctx, g, model=None):
                   inp=inp, suite="corr.prune")
 
 
-def game_payload(g, exact=False):
-    """wire format of a game for the model driver"""
-    pl = {P1: 1, P2: 2, PR: 0}
-    tl = []
-    xt = gen.exact_tl(g)
-    for i, row in enumerate(g["transition_list"]):
-        if g["players"][i] == PR:
-            if exact:
-                tl.append([["", f"{Fr(p).numerator}/{Fr(p).denominator}", t] for p, t in xt[i]])
-            else:
-                tl.append([["", fbits(p), t] for p, t in row])
-        else:
-            tl.append([[a, "0" if not exact else "0/1", t] for a, t in row])
-    rew = [(f"{Fr(x).numerator}/{Fr(x).denominator}" if exact else fbits(x)) for x in g["rewards"]]
-    return {"num": "rat" if exact else "float", "rewards": rew, "players": [pl[p] for p in g["players"]],
-            "tl": tl, "finals": list(g["final_states"])}
+from wire import game_payload  # noqa: E402
 
 
 def run(ctx, model=None):
